@@ -53,6 +53,63 @@ let memo (f : pt -> bool) : pt -> bool =
        | Some v -> v
        | None -> let v = f p in Hashtbl.replace t k v; v)
 
+(* ---- the dumped overlay (hook geom/verif_hooks.go:VerifOverlay) ---- *)
+type ov = { cx : complex; vxy : string array; eseq : string array array }
+let parse_ov (s : string) : ov =
+  let t = Array.of_list (tokens s) in
+  let pos = ref 0 in
+  let next () = let x = t.(!pos) in incr pos; x in
+  let expect tag = if next () <> tag then failwith ("overlay dump: expected " ^ tag) in
+  let bit () = next () = "1" in
+  let lab () = let a = bit () in let b = bit () in (a, b) in
+  expect "V";
+  let nv = int_of_string (next ()) in
+  let vs = Array.init nv (fun _ ->
+      let x = next () in let y = next () in
+      let src = lab () in let ins = lab () in
+      (x ^ " " ^ y, { v_src = src; v_in = ins })) in
+  expect "E";
+  let ne = int_of_string (next ()) in
+  let big = nat_of_int (nv + ne + 7) in
+  let id () = let i = int_of_string (next ()) in if i < 0 then big else nat_of_int i in
+  let es = Array.init ne (fun _ ->
+      let o = id () in let tw = id () in let nx = id () in let pv = id () in let fc = id () in
+      let se = lab () in let sf = lab () in let ins = lab () in
+      let k = int_of_string (next ()) in
+      let pts = Array.init k (fun _ -> let x = next () in let y = next () in x ^ " " ^ y) in
+      (pts, { e_origin = o; e_twin = tw; e_next = nx; e_prev = pv; e_face = fc; e_srcEdge = se; e_srcFace = sf; e_in = ins })) in
+  expect "F";
+  let nf = int_of_string (next ()) in
+  let fs = List.init nf (fun _ ->
+      let c = int_of_string (next ()) in
+      let ins = lab () in
+      { f_cycle = (if c < 0 then None else Some (nat_of_int c)); f_in = ins }) in
+  if !pos <> Array.length t then failwith "overlay dump: trailing tokens";
+  { cx = { c_verts = List.map snd (Array.to_list vs); c_edges = List.map snd (Array.to_list es); c_faces = fs };
+    vxy = Array.map fst vs; eseq = Array.map fst es }
+
+(* cells of a result as the implementation returned it (bit patterns, no snapping) *)
+let hx (v : n) = hex_of_n 16 v
+let vstr (v : n vtx) = hx v.vx ^ " " ^ hx v.vy
+let seg_str a b = if compare a b <= 0 then a ^ "|" ^ b else b ^ "|" ^ a
+let rec segs_of = function a :: (b :: _ as r) -> seg_str a b :: segs_of r | _ -> []
+let line_str (ps : string list) =
+  let f = String.concat "," ps and r = String.concat "," (List.rev ps) in if compare f r <= 0 then f else r
+let rec result_cells (g : n geomT) : string list * string list * string list =
+  let line_pts (MkLine (_, vs)) = List.map vstr vs in
+  let poly (MkPoly (_, rs)) = List.concat_map (fun r -> segs_of (line_pts r)) rs in
+  match g with
+  | GPoint (MkPoint (_, Some v)) -> ([], [], [vstr v])
+  | GPoint _ -> ([], [], [])
+  | GLine l -> ([], [line_str (line_pts l)], [])
+  | GPoly y -> (poly y, [], [])
+  | GMPoint (_, ps) -> ([], [], List.concat_map (function MkPoint (_, Some v) -> [vstr v] | _ -> []) ps)
+  | GMLine (_, ls) -> ([], List.map (fun l -> line_str (line_pts l)) ls, [])
+  | GMPoly (_, ys) -> (List.concat_map poly ys, [], [])
+  | GColl (_, gs) ->
+    List.fold_left (fun (a, b, c) g' -> let (x, y, z) = result_cells g' in (a @ x, b @ y, c @ z)) ([], [], []) gs
+let sorted l = List.sort compare l
+
 type res = Good of string * q geomT * q geomT * bool * int   (* dump, exact value, snapped value, valid, moved *)
          | Bad of string
 
@@ -132,7 +189,12 @@ let () =
       let snap_hinted (g : q geomT) : q geomT = geom_mapxy snap_one (q_of_int 0) g in
       let table : (string, res) Hashtbl.t = Hashtbl.create 16 in
       let by_dump : (string, q geomT * q geomT * int) Hashtbl.t = Hashtbl.create 16 in
+      let overlays : (string * string) list ref = ref [] in
       List.iter (fun s ->
+          if String.length s > 0 && s.[0] = '@' then begin
+            let i = String.index s '=' in
+            overlays := (String.sub s 1 (i - 1), String.sub s (i + 1) (String.length s - i - 1)) :: !overlays
+          end else
           match String.split_on_char '|' s with
           | [name; "ERR"; msg] -> Hashtbl.replace table name (Bad msg)
           | [name; dump; v] ->
@@ -255,6 +317,48 @@ let () =
                 (Printf.sprintf "class=%s symptom=%s result=%s%s" klass symptom n first)
             end
           | _ -> ()) primaries;
+      (* ---------------- the real overlay structure: invariants (SPEC) and the selection model (CORR) *)
+      let raw_of n = match get n with Some (Good (d, _, _, _, _)) -> Some (parse_dump d) | _ -> None in
+      List.iter (fun (oname, dump) ->
+          if dump = "TIMEOUT" || (String.length dump >= 5 && String.sub dump 0 5 = "PANIC") then
+            failc "SPEC" ("overlay_" ^ oname) dump
+          else begin
+            let o = parse_ov dump in
+            count "overlays_judged";
+            let parts = [ ("ranges", ranges_ok); ("twin", twin_ok); ("next_prev", next_prev_ok);
+                          ("face_cycles", faces_ok); ("euler", euler_ok); ("labels", labels_ok) ] in
+            let broken = List.filter (fun (_, f) -> not (f o.cx)) parts in
+            if broken <> [] then
+              failc "SPEC" ("dcel_invariant_" ^ fst (List.hd broken))
+                (Printf.sprintf "overlay=%s V=%d E=%d F=%d violated=%s" oname (Array.length o.vxy) (Array.length o.eseq)
+                   (List.length o.cx.c_faces) (String.concat "," (List.map fst broken)))
+            else begin
+              if not (dcel_ok o.cx) then failc "CORR" "dcel_ok_conjunction" oname;
+              (* which results were extracted from this overlay, with which operation *)
+              let engine op = kind = "P" && (match a, b with
+                  | Some a, Some b -> dispatch op (is_empty a) (is_empty b) = DEngine | _ -> false) in
+              let uses =
+                match oname with
+                | "OV" -> List.filter (fun (_, op) -> engine op) [ ("U", OpUnion); ("I", OpInter); ("D", OpDiff); ("S", OpSym) ]
+                | "OVA" -> [ ("UA", OpUnion) ] | "OVB" -> [ ("UB", OpUnion) ] | "OVM" -> [ ("M", OpUnion) ]
+                | _ -> [] in
+              List.iter (fun (rn, op) ->
+                  match raw_of rn with
+                  | None -> ()
+                  | Some rg ->
+                    count "selections_compared";
+                    let (gsegs, glines, gpts) = result_cells rg in
+                    let ids l = List.map int_of_nat l in
+                    let msegs = List.concat_map (fun i -> segs_of (Array.to_list o.eseq.(i))) (ids (boundary_edges op o.cx)) in
+                    let mlines = List.map (fun i -> line_str (Array.to_list o.eseq.(i))) (ids (lines_selected op o.cx)) in
+                    let mpts = List.map (fun i -> o.vxy.(i)) (ids (points_selected op o.cx)) in
+                    let cmp what g m =
+                      if sorted g <> sorted m then
+                        failc "CORR" ("dcel_select_" ^ what)
+                          (Printf.sprintf "result=%s overlay=%s impl has %d model has %d" rn oname (List.length g) (List.length m)) in
+                    cmp "polygon_boundary" gsegs msegs; cmp "lines" glines mlines; cmp "points" gpts mpts) uses
+            end
+          end) !overlays;
       (* ---------------- CORR: the assembly switch (the dispatch is judged with the laws below) *)
       Hashtbl.iter (fun n r -> match r with
           | Good (d, rq, _, _, _) ->
